@@ -183,6 +183,9 @@ func c20EvalFed(c *Ctx) {
 		// the bare word history): the same word, a prefix of one, an extension of one; defined, deleted and defined again
 		{"histo = 1", "history = 3", "history + histo", "historyx = 2", "func hist() {1}", "del(history)", "func history() {2}", "i = 1", "iff = 2", "le = 1", "lenx = 2",
 			"func printl() {1}", "sprint = 1", "sprintfx = 2", "func sprin() {3}", "del(i)", "i = 5", "inf = 1", "infox = 1", "histo = 2"},
+		// definitions that are REFUSED (an extension's name, a constant bound already) or fail half way: nothing of them reaches the index
+		{"sin = 3", "max := 2", "func round() {1}", "ZK = 1", "ZK = 2", "func ZF() {1}", "ZF = 3", "func ZF() {2}", "PI = 4", "zr1 = 1 / 0", "zr2 = undefined_zz + 1", "func zr3( {", "zr4 = [1, 2",
+			"zr5 = sin", "zr5 = 3", "sin++", "for sin = 2 {}", "func(max) {max}(1)", "zr6 = func() {zr7 = 1; sin = 2}", "zr6()", `eval("min = 1")`, "del(sin)", "zk2 = ZK"},
 	}
 	for si, sess := range sessions {
 		n, bad := c20EvalFedSession(c, si, sess)
